@@ -65,21 +65,34 @@ MC_SolveThorough(ss, st) ==
               ELSE SeqVars(st.deco) \ {TimeVar} # {} /\ ~HasKind(st, NewKinds)
 MC_SolveAny(ss, st)      == TRUE
 
-OrigDef(x) ==
-    IF x \in SeqVars(orig.lagged) THEN D("lag", orig.lagged[LagOf(orig, x)].src, "", 0, << >>)
-    ELSE IF x \in SeqVars(orig.exo) THEN D("exo", "", "", 0, orig.exo[ExoOf(orig, x)].p)
-    ELSE orig.endo[CHOOSE i \in 1..Len(orig.endo) : orig.endo[i].var = x].def
+(* Second blocks on the same solver objects (after an ordinary solve of the first).                *)
+(*   quick     first blocks of 1 or 2 variables: the literal of a SET-ASIDE equation changes; or a *)
+(*             variable  u + 1  is added to a block in which the reduction set no user variable    *)
+(*             aside (decorative variables where the first block had none)                         *)
+(*   thorough  (instance `blocks`) also the literal of any equation; added  u + 1 , alias or lag     *)
+UserDeco(st) == SeqVars(st.deco) \ {TimeVar}
+MC_EditQuick(ed, st) ==
+    /\ st.solve = "plain" /\ NOrigOf(st) <= 2
+    /\ \/ ed.op = "recoef" /\ ed.var \in SeqVars(st.deco)
+       \/ ed.op = "extend" /\ ed.def.kind = "inc" /\ ed.ic = NoIC /\ UserDeco(st) = {}
+MC_EditThorough(ed, st) ==
+    /\ st.solve = "plain" /\ NOrigOf(st) <= 2
+    /\ \/ ed.op = "recoef"
+       \/ ed.op = "extend" /\ ed.def.kind \in {"inc", "alias", "lag"} /\ ed.ic = NoIC
+MC_LineTwo(i, d, ic, a, c) == i <= 2          \* first blocks of 1 or 2 variables (instance `blocks`)
+MC_SolvePlain(ss, st) == ~ss
+MC_EditNone(ed, st) == FALSE
+MC_EditAny(ed, st) == TRUE
 
 NamesOf(s) == [i \in 1..Len(s) |-> s[i].var]
-
-NOrig == Len(orig.endo) - 1 + Len(orig.lagged) + Len(orig.exo)      \* without the parser's own t
 
 Terminal == phase = "solved"
 Emit == Terminal =>
     PrintT(<< "BEH", ToJson([
         ss     |-> (solve = "steady"),
         T      |-> SteadyT,
-        decl   |-> [i \in 1..NOrig |-> [var |-> Vars[i], def |-> OrigDef(Vars[i]), ic |-> orig.ics[Vars[i]]]],
+        decl   |-> DeclOf(St),
+        first  |-> first,
         endo   |-> NamesOf(endo),
         deco   |-> NamesOf(deco),
         lagged |-> NamesOf(lagged),
